@@ -63,6 +63,7 @@ type Job struct {
 	Vacuity bool // the job must report the assertion labelled "vacuity" as violated
 	Raw     bool // run without redirects/summaries (lemmas about the real bodies)
 	NoMerge bool
+	Yield   bool // releases of a mutex call the harness hook that may run the other goroutine's operation (C14)
 }
 
 func (j Job) Name() string {
@@ -394,6 +395,24 @@ func (rc *RunCtx) runJob(j Job) (res *JobResult) {
 	pkg := rc.Loaded.Pkgs[pkgDirs[j.Pkg][1]]
 	if pkg == nil {
 		panic("package not loaded: " + j.Pkg)
+	}
+	if j.Yield {
+		e.Redirects["(*sync.Mutex).Unlock"] = pkg.Func("verifYieldMutex")
+		e.Redirects["(*sync.RWMutex).Unlock"] = pkg.Func("verifYieldRW")
+		e.Redirects["(*sync.RWMutex).RUnlock"] = pkg.Func("verifYieldRRW")
+		if pkg.Func("verifPoolGetFresh") != nil {
+			// the pool is not a critical section: it never hands one object to two holders
+			e.RedirectPkg = pkg
+			e.RedirectMatch = func(name string) string {
+				if strings.Contains(name, "syncutil.Pool[") && strings.Contains(name, ").Get") {
+					return "verifPoolGetFresh"
+				}
+				if strings.Contains(name, "syncutil.Pool[") && strings.Contains(name, ").Put") {
+					return "verifPoolPutNop"
+				}
+				return ""
+			}
+		}
 	}
 	fn := pkg.Func(j.Func)
 	if fn == nil {
